@@ -483,10 +483,26 @@ def c20_runtime(tier):
     home = os.path.join(BUILD, "fdhome")
     if os.path.isdir(home):
         shutil.rmtree(home)
+    # the user's default home (HOME/.fundraising) holds ANOTHER key named alice and its own client.toml: with --home
+    # typed, neither may be used
+    fake = os.path.join(BUILD, "fduser")
+    shutil.rmtree(fake, ignore_errors=True)
+    os.makedirs(fake)
+    benv = dict(os.environ, HOME=fake)
+    rc0, out0 = sh("timeout 120 %s keys add alice --keyring-backend test" % B, env=benv)
+    rc0, out0 = sh("timeout 120 %s keys show alice -a --keyring-backend test" % B, env=benv)
+    decoy = (ADDR_RE.findall(out0) or ["?"])[-1]
+    sh("timeout 120 %s config set client chain-id decoy-chain" % B, env=benv)
+    def set_backend(d):
+        f = os.path.join(d, "config", "client.toml")
+        if os.path.exists(f):
+            t = open(f).read()
+            open(f, "w").write(re.sub(r'keyring-backend\s*=\s*"[a-z]*"', 'keyring-backend = "test"', t))
+    set_backend(os.path.join(fake, ".fundraising"))
     def run(args, expect_rc=0):
         nonlocal ran
         ran += 1
-        rc, out = sh("timeout 120 %s %s%s" % (B, args, "" if args.endswith("--help") else " --home " + home))
+        rc, out = sh("timeout 120 %s %s%s" % (B, args, "" if args.endswith("--help") else " --home " + home), env=benv)
         if rc != expect_rc:
             fails.append(dict(cmd="fundraisingd " + args, rc=rc, output=out[-1200:]))
         return rc, out
@@ -495,6 +511,8 @@ def c20_runtime(tier):
     run("keys add alice --keyring-backend test")
     rc, out = run("keys show alice -a --keyring-backend test")
     alice = (ADDR_RE.findall(out) or ["?"])[-1]
+    if alice == decoy:
+        fails.append(dict(cmd="fundraisingd keys add alice --home <home>", rc=0, output="the key was stored in (or read from) the default home although --home was typed: %s" % alice))
     expected = {"query": ["get-allowed-bidder", "get-auction", "get-bid", "list-allowed-bidder", "list-auction", "list-bid", "list-vesting-queue", "params"],
                 "tx": ["cancel-auction", "create-batch-auction", "create-fixed-price-auction", "modify-bid", "place-bid"]}
     for kind, names in expected.items():
@@ -534,6 +552,19 @@ def c20_runtime(tier):
         if got != want:
             fails.append(dict(cmd="fundraisingd " + args, rc=rc, output="typed arguments and generated message differ", expected=want, got=got))
         samples.append(dict(cmd=args, message=got))
+    # the settings of the home the user names are the ones in force: the keyring backend comes from that home's
+    # client.toml (no --keyring-backend typed), and --from alice is the alice of that home, not the one of the same
+    # name in the default home
+    set_backend(home)
+    ran += 1
+    rc, out = sh("timeout 120 %s tx fundraising cancel-auction 9 --from alice --generate-only --offline --account-number 1 --sequence 1 --home %s" % (B, home), env=benv)
+    try:
+        got = json.loads(out[out.index("{"):])["body"]["messages"][0]
+    except Exception:
+        got = None
+    if rc != 0 or not got or got.get("auctioneer") != alice:
+        fails.append(dict(cmd="fundraisingd tx fundraising cancel-auction 9 --from alice --generate-only --home <home>   (keyring backend from <home>/config/client.toml; another key named alice in the default home)",
+                          rc=rc, output=out[-600:], expected=dict(auctioneer=alice), got=got, alice_of_the_default_home=decoy))
     # what the user types is what is sent, also when too much is typed: every request field of this module's
     # transactions is a single value, so one argument more than the usage line shows must be refused, not silently
     # dropped or used to overwrite an earlier one
@@ -541,7 +572,7 @@ def c20_runtime(tier):
         words = args.split(" ")
         extra = " ".join(words[:3] + [words[3]] + words[3:])     # the first positional argument typed twice
         ran += 1
-        rc, out = sh("timeout 120 %s %s %s --home %s" % (B, extra, T, home))
+        rc, out = sh("timeout 120 %s %s %s --home %s" % (B, extra, T, home), env=benv)
         if rc == 0 and '"messages"' in out:
             try:
                 got = json.loads(out[out.index("{"):])["body"]["messages"]
@@ -550,7 +581,7 @@ def c20_runtime(tier):
             fails.append(dict(cmd="fundraisingd " + extra, rc=rc, output="a surplus positional argument is accepted: the generated transaction cannot contain everything that was typed",
                               typed=words[3:] + [words[3]], got=got))
     # a query command needs a node; without one it must fail with a connection error, not with a binding error
-    rc, out = sh("timeout 60 %s query fundraising get-bid 1 2 --node tcp://127.0.0.1:1 --home %s" % (B, home)); ran += 1
+    rc, out = sh("timeout 60 %s query fundraising get-bid 1 2 --node tcp://127.0.0.1:1 --home %s" % (B, home), env=benv); ran += 1
     if "can't find field" in out or "unknown command" in out or "accepts" in out:
         fails.append(dict(cmd="fundraisingd query fundraising get-bid 1 2", rc=rc, output=out[-600:]))
     shutil.rmtree(home, ignore_errors=True)
